@@ -386,11 +386,15 @@ impl<'a> Checker<'a> {
             if si >= 1 {
                 let mut all_old = true;
                 let mut fresh_bytes_one_file = 0u64;
+                // every OCCURRENCE of a chunk no earlier session stored (a repeat of a fresh chunk may legitimately be
+                // stored again, e.g. in another file of the session)
+                let mut fresh_occurrence_bytes = 0u64;
                 for f in &obs.files {
                     let mut seen = BTreeSet::new();
                     for (h, l) in rm::chunk_list(&f.bytes, target) {
                         if !prior_chunks.contains(&h) {
                             all_old = false;
+                            fresh_occurrence_bytes += l;
                             if seen.insert(h) {
                                 fresh_bytes_one_file += l;
                             }
@@ -409,6 +413,21 @@ impl<'a> Checker<'a> {
                         if m.new_bytes as u64 != fresh_bytes_one_file {
                             self.viol("C11/new-bytes-not-only-fresh", format!("session {si}: new_bytes = {} but the fresh chunks amount to {fresh_bytes_one_file}", m.new_bytes), scn, si);
                         }
+                    }
+                } else if info_ok && !all_old && !obs.files.is_empty() {
+                    // fragmentation prevention on, some chunks fresh: a chunk is stored as new data only if no earlier
+                    // session stored it or if its dedup was withheld — whatever route the scan takes through the file
+                    self.out.count("vac:mixed_reupload_sessions_prevention_on", 1);
+                    if m.new_bytes as u64 > fresh_occurrence_bytes + m.defrag_prevented_dedup_bytes as u64 {
+                        self.viol(
+                            "C11/known-chunks-uploaded-again",
+                            format!(
+                                "session {si}: new_bytes {} exceed the {} bytes of chunks no earlier session stored plus the {} bytes withheld by fragmentation prevention",
+                                m.new_bytes, fresh_occurrence_bytes, m.defrag_prevented_dedup_bytes
+                            ),
+                            scn,
+                            si,
+                        );
                     }
                 } else if info_ok && all_old && !obs.files.is_empty() {
                     self.out.count("vac:unchanged_reupload_sessions_prevention_on", 1);
